@@ -11,6 +11,13 @@ saves in a row on the real library, logs the observed steps and file states, and
 Trace_CincoSave.tla replays the logs and evaluates the property on the observations
 (code -> spec).
 
+Field kinds include values that are not plain YAML / JSON types but are stored as-is by free-form
+fields: a tuple in an untyped Field / AnyField ("tuple"), inside an untyped ListField ("ltuple"),
+nested inside a value of an untyped DictField ("dtuple").  They lie in the domain of yaml (full
+Dumper / Loader), pickle and the custom format - a successful save must load back equal there -
+while json / bson write an array that loads as a list (outside the domain: the specification
+leaves the loaded value open, "?") and xml's dumps raises.
+
 What is observed on the real code (never through private attributes):
   R   the (logging subclass of the) formatter was constructed by ConfigFormat.get
   E i field i's to_basic was entered (logging subclasses of the field classes)
@@ -40,6 +47,7 @@ INVARIANTS = ["TypeOK", "C19_Untouched", "C19_Exact", "C19_LoadsBack", "C19_Faul
 PROPERTIES = ["C19_SerialiseThenOpen"]
 CTRL_CODES = [c for c in range(1, 32) if c not in (9, 10, 13)]
 PRE_OPEN_STEPS = {"R", "E", "K", "G", "D"}
+TUPLE_KINDS = ("tuple", "ltuple", "dtuple")
 WRITE_STEPS = {"W", "B", "C"}
 
 _ORIG = {
@@ -302,6 +310,18 @@ def plain_value(cls, j, rng):
     return rng.choice([None, 7, "free", [1, "a"], {"k": 1}])  # untyped Field
 
 
+def rand_item(rng, depth):
+    """A plain value or (depth permitting) a tuple - what an untyped container may hold."""
+    if depth > 0 and rng.random() < 0.25:
+        return rand_tuple(rng, depth - 1)
+    return rng.choice([None, True, False, 0, -3, rng.randrange(-(10**6), 10**6), 0.5, -2.25, "", "w", "free text", [1, "a"], {"k": 1}])
+
+
+def rand_tuple(rng, depth):
+    """A tuple of plain values and nested tuples (possibly empty, possibly of length one)."""
+    return tuple(rand_item(rng, depth) for _ in range(rng.choice([0, 1, 2, 2, 2, 3, 4])))
+
+
 class Bench:
     """A real schema + configuration, a destination and a key file in a scratch directory."""
 
@@ -347,6 +367,21 @@ class Bench:
             elif kind == "ctrlstr":
                 fld = kit.field(ex.get("cls", "StringField"))
                 path = name
+            elif kind == "tuple":
+                # a free-form field holding a tuple as-is
+                fld = kit.field(ex.get("cls", "Field" if j % 2 else "AnyField"))
+                path = name
+            elif kind == "ltuple":
+                # an untyped list field (no item field, or an AnyField item) with a tuple inside
+                if ex.get("item", "none" if j % 2 else "any") == "any":
+                    fld = kit.field("ListField", cinco.AnyField())
+                else:
+                    fld = kit.field("ListField")
+                path = name
+            elif kind == "dtuple":
+                # an untyped dict field with a nested tuple inside a value
+                fld = kit.field("DictField")
+                path = name
             else:
                 raise ValueError("unknown field kind %r" % kind)
             fld.c19_index = j
@@ -390,6 +425,21 @@ class Bench:
             body = [rng.choice("abcXYZ019_") for _ in range(rng.randrange(0, 8))]
             body.insert(rng.randrange(len(body) + 1), chr(rng.choice(CTRL_CODES)))
             return "".join(body)
+        if kind == "tuple":
+            return (800 + j, 600 + r) if rng is None else rand_tuple(rng, 2)
+        if kind == "ltuple":
+            if rng is None:
+                return [j, (r, "x")]
+            items = [rand_item(rng, 2) for _ in range(rng.randrange(0, 3))]
+            items.insert(rng.randrange(len(items) + 1), rand_tuple(rng, 2))
+            return items
+        if kind == "dtuple":
+            if rng is None:
+                return {"size": {"wh": (j, (r, "deep"))}}
+            inner = {"k%d" % n: rand_item(rng, 1) for n in range(rng.randrange(0, 3))}
+            inner["t"] = (rng.randrange(100), rand_tuple(rng, 1))
+            value = rng.choice([inner, {"sub": inner}, {"sub": inner, "l": [1, rand_tuple(rng, 1)]}])
+            return value
         return None
 
     def assign_values(self, r):
@@ -582,6 +632,11 @@ def compare(expected, observed):
     for e in obs:
         if e["op"] == "Begin":
             e["faults"] = sorted(e["faults"], key=lambda f: (f["f"], f["i"]))
+    for x, e in zip(expected, obs):
+        # "?" in the specification's eq: the saved value lies outside the domain of the format
+        # (a tuple in json / bson) - the specification leaves open what comes back
+        if x["op"] == "Load" and e["op"] == "Load" and len(x["eq"]) == len(e["eq"]):
+            e["eq"] = ["?" if a == "?" else b for a, b in zip(x["eq"], e["eq"])]
     if obs == expected:
         return None
     pe, po = projection(expected), projection(obs)
@@ -664,14 +719,18 @@ def write_cfg(path, maxn, rounds, faults, kinds="MCKinds", formats="MCFormats", 
 
 INSTANCES = {
     "quick": [
-        ("one save, 1..3 fields, every single fault", dict(maxn=3, rounds=1, faults=1)),
+        ("one save, 1..3 fields of 8 kinds, every single fault", dict(maxn=3, rounds=1, faults=1, kinds="MCKinds8")),
         ("two saves in a row, 1 field, 3 formats", dict(maxn=1, rounds=2, faults=1, formats="MCFormats2")),
         ("one save, 1..2 fields, every pair of faults", dict(maxn=2, rounds=1, faults=2)),
+        ("one save, 1..2 fields out of the three tuple shapes / plain / secret, every single fault", dict(maxn=2, rounds=1, faults=1, kinds="MCKindsT")),
     ],
     "thorough": [
-        ("one save, 1..4 fields, every single fault", dict(maxn=4, rounds=1, faults=1)),
-        ("two saves in a row, 1..2 fields of 6 kinds, 3 formats", dict(maxn=2, rounds=2, faults=1, kinds="MCKinds2", formats="MCFormats2")),
-        ("one save, 1..3 fields of 6 kinds, every pair of faults", dict(maxn=3, rounds=1, faults=2, kinds="MCKinds2")),
+        ("one save, 1..4 fields of 8 kinds, every single fault", dict(maxn=4, rounds=1, faults=1, kinds="MCKinds8")),
+        ("one save, 1..3 fields of 9 kinds (tuple in a free-form field), every single fault", dict(maxn=3, rounds=1, faults=1)),
+        ("two saves in a row, 1..2 fields of 7 kinds, 3 formats", dict(maxn=2, rounds=2, faults=1, kinds="MCKinds2", formats="MCFormats2")),
+        ("one save, 1..3 fields of 7 kinds, every pair of faults", dict(maxn=3, rounds=1, faults=2, kinds="MCKinds2")),
+        ("one save, 1..3 fields out of the three tuple shapes / plain / secret, every single fault", dict(maxn=3, rounds=1, faults=1, kinds="MCKindsT")),
+        ("two saves in a row, 1..2 fields out of the three tuple shapes / plain, yaml pickle xml", dict(maxn=2, rounds=2, faults=1, kinds="MCKindsT2", formats="MCFormatsT")),
     ],
 }
 
@@ -682,8 +741,17 @@ def gen_case(rng):
     n = rng.choice([1, 2, 3, 4, 5, 6, 8, 10])
     kinds, extras = [], []
     for _ in range(n):
-        kind = rng.choice(["plain"] * 6 + ["secret"] * 4 + ["esecret", "bsecret", "nsecret", "nsecret"] + rng.choice([["plain"], ["ctrlstr"], ["set", "huge", "raw", "ctrlstr"]]))
+        kind = rng.choice(
+            ["plain"] * 6
+            + ["secret"] * 4
+            + ["esecret", "bsecret", "nsecret", "nsecret"]
+            + rng.choice([["plain"], ["ctrlstr"], ["set", "huge", "raw", "ctrlstr"], list(TUPLE_KINDS) * 2])
+        )
         ex = {}
+        if kind == "tuple":
+            ex["cls"] = rng.choice(["Field", "AnyField"])
+        if kind == "ltuple":
+            ex["item"] = rng.choice(["none", "any"])
         if kind == "plain":
             ex["cls"] = rng.choice(PLAIN_CLASSES)
         if kind in ("secret", "esecret", "bsecret", "nsecret"):
@@ -774,6 +842,7 @@ def run(tier, seed):
     drift = collections.Counter()
     by_out = collections.Counter()
     first_fault = collections.Counter()
+    tuple_loads = collections.Counter()  # saves holding a tuple kind that the spec lets succeed, by format / verdict
     inst_cov = []
     samples = []
     distinct = set()
@@ -806,6 +875,10 @@ def run(tier, seed):
                 lg = seq(rd["log"])
                 if rd["out"] == "raised":
                     first_fault[(lg[-1]["s"] if lg else "Resolve")] += 1
+                else:
+                    for kind, rel in zip(seq(c["fields"]), seq(rd["eq"])):
+                        if kind in TUPLE_KINDS:
+                            tuple_loads["%s:%s:%s" % (rd["par"]["fmt"], kind, "must-be-equal" if rel == "same" else "open")] += 1
             distinct.add(common.hash_case([c["fields"], [[r["par"], r["dest0"]] for r in seq(c["rounds"])]]))
             if cmp_ is None:
                 continue
@@ -827,6 +900,8 @@ def run(tier, seed):
 
     # vacuity: every kind of failing step and both outcomes must have been exercised
     missing = [k for k in ("Resolve", "E", "K", "G", "D") if not first_fault.get(k)] + [k for k in ("ok", "raised") if not by_out.get(k)]
+    # ... and every tuple shape must have been saved and loaded back in the formats whose domain holds it
+    missing += ["%s:%s:must-be-equal" % (f, k) for f in ("yaml", "pickle") for k in TUPLE_KINDS if not tuple_loads.get("%s:%s:must-be-equal" % (f, k))]
     if missing and not out.violations:
         raise RuntimeError("vacuous run: no behaviour ending at %s" % missing)
 
@@ -861,6 +936,15 @@ def run(tier, seed):
     d_events = sum(len(t["events"]) for t in traces)
     d_rounds = sum(1 for t in traces for e in t["events"] if e["op"] == "End")
     d_raised = sum(1 for t in traces for e in t["events"] if e["op"] == "End" and e["out"] == "raised")
+    d_tuple = collections.Counter()  # loads of a configuration holding a tuple kind, by format of the save
+    for t in traces:
+        fmt = None
+        for e in t["events"]:
+            if e["op"] == "Begin":
+                fmt = e["fmt"]
+            elif e["op"] == "Load":
+                for kind in set(t["case"]["fields"]) & set(TUPLE_KINDS):
+                    d_tuple["%s:%s" % (fmt, kind)] += 1
     for t in traces:
         distinct.add(common.hash_case([t["case"]["fields"], [r["par"] for r in t["case"]["rounds"]], t["case"]["dest0"]]))
     if traces:
@@ -877,6 +961,8 @@ def run(tier, seed):
         "spec_to_code_behaviours": n_exec,
         "spec_to_code_saves_by_outcome": dict(by_out),
         "spec_to_code_raised_saves_by_last_observed_step": dict(first_fault),
+        "spec_to_code_tuple_kind_loads": dict(sorted(tuple_loads.items())),
+        "code_to_spec_tuple_kind_loads": dict(sorted(d_tuple.items())),
         "code_to_spec_traces": len(verdicts),
         "code_to_spec_saves": d_rounds,
         "code_to_spec_saves_raised": d_raised,
@@ -886,8 +972,10 @@ def run(tier, seed):
         "evaluations": n_exec + d_rounds,
         "distinct_nontrivial": len(distinct),
         "rule": "spec->code: one case per complete behaviour of the TLC instance = (schema of 1..MaxN field kinds out of "
-        "plain/secret/unset secret/empty-string secret/nested secret/set/huge int/string with a control character) x (destination previously saved | absent) x per save (format x fault set x "
+        "plain/secret/unset secret/empty-string secret/nested secret/set/huge int/string with a control character/tuple in a free-form field; "
+        "a dedicated instance with the three tuple shapes: in a free-form Field or AnyField / inside an untyped list field / nested inside an untyped dict value) x (destination previously saved | absent) x per save (format x fault set x "
         "key file valid/wrong size/missing); code->spec: seeded random schemas of 1..10 fields, 8 plain field classes, nested depth <= 3, "
+        "random tuples (empty, nested, mixed plain items) in free-form / untyped list / untyped dict fields, "
         "1..4 saves, up to 3 simultaneous faults, 6 formats incl. a registered custom one, format options, key sizes 0..64; "
         "distinct = distinct (schema, initial destination, per-save parameters); trivial = none excluded (every case has a "
         "destination to protect and at least one serialisation step)",
@@ -895,7 +983,8 @@ def run(tier, seed):
     }
     out.assumptions = [
         "file contents are abstracted to absent/empty/prev/new/partial/other relative to the bytes at the start of the save and the bytes formatter.dumps returned",
-        "the third-party encoders (json, yaml, bson, pickle, xml.etree) are channels with a domain predicate (set, >64-bit int, raw bytes, control-character string for xml); their byte-level output is not modelled",
+        "the third-party encoders (json, yaml, bson, pickle, xml.etree) are channels with a domain predicate (set, >64-bit int, raw bytes, control-character string for xml, tuple); their byte-level output is not modelled",
+        "a tuple (free-form field, untyped list / dict field) lies in the domain of yaml, pickle and the custom format only: json and bson write it as an array and load a list (save succeeds, what loads back is left open and not compared), xml's dumps raises; one abstract value stands for a tuple wherever it sits in the field's value",
         "what is on disk between write() and close() is not observed (buffered I/O); a chunked write of the complete serialisation is treated as one Write",
         "Encrypt is not observable from outside; only its effect (a fault raised after the key file was read; the secret decrypting on load) is",
         "faults at open-for-write / write / close of the destination (disk full, permissions) are outside the property's quantifier and are not injected",
